@@ -57,17 +57,22 @@ var (
 )
 
 type c04Op struct {
-	Op string `json:"op"`          // get | ins | rem | cp | rb | commit | abandon
+	Op string `json:"op"`          // get | ins | rem | cp | rb | commit | cnew | renew
+	W  int    `json:"w,omitempty"` // view slot the op is addressed to
 	K  int    `json:"k,omitempty"` // key index (get/ins/rem)
 	V  int    `json:"v,omitempty"` // value index (ins)
-	I  int    `json:"i,omitempty"` // rb: index into the currently valid checkpoints (negative: from the newest)
+	I  int    `json:"i,omitempty"` // rb: index into the slot's currently valid checkpoints (negative: from the newest)
 }
 
+// commit: Commit() and keep using the same view (Commit is not terminal).
+// cnew:   Commit() and replace the slot's view by a fresh one (one-shot view).
+// renew:  drop the slot's view without committing (or fill an empty slot) with a fresh view.
 type c04Case struct {
-	NKeys int     `json:"nkeys"`
-	Base  []int   `json:"base"`  // per key: 0 absent, i>0 value i-1
-	Block []int   `json:"block"` // per key: 0 no entry, 1 tombstone, i>=2 value i-2
-	Ops   []c04Op `json:"ops"`
+	NKeys  int     `json:"nkeys"`
+	NViews int     `json:"nviews,omitempty"` // view slots (1..3); slot 0 holds a view from the start, the others are filled by renew/cnew
+	Base   []int   `json:"base"`             // per key: 0 absent, i>0 value i-1
+	Block  []int   `json:"block"`            // per key: 0 no entry, 1 tombstone, i>=2 value i-2
+	Ops    []c04Op `json:"ops"`
 }
 
 type c04Info struct {
@@ -75,10 +80,14 @@ type c04Info struct {
 	blockTomb, blockValEqBase, blockTombOverAbsent               bool
 	multiView, publishDelete, publishNothingAfterWrites, abandon bool
 	emptyValue, writeAfterRollback                               bool
-	ops, skipped                                                 int
+	writeAfterCommit, rbPastCommit, secondCommit, reuseAfterFirst bool
+	severalLive, liveShareKey, uncommittedWhileSibling            bool
+	ops, skipped, excluded                                       int
 }
 
-func (i c04Info) nontrivial() bool { return i.dcdUnderlying || i.rbAcrossCD }
+func (i c04Info) nontrivial() bool {
+	return i.dcdUnderlying || i.rbAcrossCD || i.writeAfterCommit || i.rbPastCommit
+}
 
 func (i c04Info) labels() []string {
 	var l []string
@@ -100,6 +109,13 @@ func (i c04Info) labels() []string {
 	add(i.abandon, "view-abandoned")
 	add(i.emptyValue, "empty-value-written")
 	add(i.writeAfterRollback, "write-after-rollback")
+	add(i.writeAfterCommit, "write-on-view-after-its-commit")
+	add(i.rbPastCommit, "rollback-to-checkpoint-before-own-commit")
+	add(i.secondCommit, "second-commit-of-same-view")
+	add(i.reuseAfterFirst, "view-reused-after-first-commit-of-block")
+	add(i.severalLive, "several-live-views")
+	add(i.liveShareKey, "live-views-wrote-same-key")
+	add(i.uncommittedWhileSibling, "uncommitted-write-while-sibling-view-live")
 	return l
 }
 
@@ -180,19 +196,54 @@ func c04SameMap(a, b map[string]mval) bool {
 }
 
 type c04Checkpoint struct {
-	real, model, ev int
+	real, model, ev, commits int
 }
 
 type c04Event struct {
-	k      int
-	create bool
+	k          int
+	create     bool
+	undPresent bool // the key existed in the underlying state when the event happened
 }
 
+type c04Slot struct {
+	real       *tstate.TStateView
+	mv         *kvView
+	cps        []c04Checkpoint
+	events     []c04Event
+	writes     int // effective writes since creation / last commit (incl. rolled back ones)
+	commits    int // Commit() calls on this view object
+	rolledBack bool
+	firstOfBlk bool // one of its commits published into a still empty block-level change set
+	wrote      [len4]bool // keys this view object tried to write (incl. no-op writes) since its creation
+}
+
+// Two generator rules (implicit preconditions every caller of tstate respects;
+// ops that would break them are not executed and are counted through exclude):
+//
+//	c04ExclOwner: a key is written by at most one live view at a time (the
+//	  executor never overlaps tasks with conflicting key sets; builder, chaintest,
+//	  genesis and jsonrpc are sequential).
+//	c04ExclBelowCommit: a view is not rolled back below its own Commit onto a
+//	  write that equalled the underlying value when it was made (every caller
+//	  commits a view as its last operation; Commit publishes and cannot be undone,
+//	  so "the values visible at that checkpoint" are not defined across it). Only
+//	  the rollbacks (and, defensively, commits) that would leave a live view with
+//	  such an entry differing from the current underlying value are excluded,
+//	  decided on the model alone; other rollbacks below a Commit stay active.
+const (
+	c04ExclOwner       = "write-to-key-written-by-another-live-view"
+	c04ExclBelowCommit = "rollback-below-own-commit-onto-restoring-write"
+)
+
 // c04Exec runs one case against the real code and the model.
-func c04Exec(c *c04Case, skip func(string)) (info c04Info, err error) {
+func c04Exec(c *c04Case, skip func(string), exclude func(string)) (info c04Info, err error) {
 	n := c.NKeys
-	if n < 1 || n > len(c04Keys) || len(c.Base) != n || len(c.Block) != n {
-		return info, fmt.Errorf("malformed case: nkeys=%d base=%v block=%v", n, c.Base, c.Block)
+	nv := c.NViews
+	if nv == 0 {
+		nv = 1
+	}
+	if n < 1 || n > len(c04Keys) || len(c.Base) != n || len(c.Block) != n || nv < 1 || nv > 3 {
+		return info, fmt.Errorf("malformed case: nkeys=%d nviews=%d base=%v block=%v", n, nv, c.Base, c.Block)
 	}
 	base := map[string]mval{}
 	storage := map[string][]byte{}
@@ -258,49 +309,58 @@ func c04Exec(c *c04Case, skip func(string)) (info c04Info, err error) {
 			c04ShowMap(got), c04ShowMap(m.block), c04ShowMap(base))
 	}
 
-	view := newView()
-	var (
-		cps            []c04Checkpoint
-		events         []c04Event
-		viewWrites     int // effective writes in the current view (incl. rolled back ones)
-		commitsWithOps int
-		rolledBack     bool
-	)
-	sweep := func(when fmt.Stringer) error {
-		for i := 0; i < n; i++ {
-			got, gerr := c04RealGet(view, c04Keys[i])
-			if gerr != nil {
-				return fmt.Errorf("%s: GetValue(key %d) failed: %v", when, i, gerr)
+	slots := make([]*c04Slot, nv)
+	fresh := func() *c04Slot { return &c04Slot{real: newView(), mv: m.newView()} }
+	slots[0] = fresh()
+	commitsWithOps := 0
+
+	// observe: after every op
+	//  - every live view reads every key as its own model view says (its uncommitted
+	//    changes are visible through it and only through it),
+	//  - a fresh full-scope probe view reads every key as block pending (+) parent,
+	//  - TState.ChangedKeys()/PendingChanges() are exactly the model's block layer:
+	//    parent + the effects of the Commit calls so far, nothing else.
+	observe := func(when fmt.Stringer) error {
+		for si, sl := range slots {
+			if sl == nil {
+				continue
 			}
-			if want := m.get(c04KeyStr[i]); got != want {
-				return fmt.Errorf("%s: GetValue(key %d)=%s, model says %s (underlying %s)", when, i,
-					c04ShowVal(got), c04ShowVal(want), c04ShowVal(m.underlying(c04KeyStr[i])))
+			for i := 0; i < n; i++ {
+				got, gerr := c04RealGet(sl.real, c04Keys[i])
+				if gerr != nil {
+					return fmt.Errorf("%s: view %d GetValue(key %d) failed: %v", when, si, i, gerr)
+				}
+				if want := sl.mv.get(c04KeyStr[i]); got != want {
+					return fmt.Errorf("%s: view %d GetValue(key %d)=%s, model says %s (underlying %s)", when, si, i,
+						c04ShowVal(got), c04ShowVal(want), c04ShowVal(m.underlying(c04KeyStr[i])))
+				}
+			}
+		}
+		if !c04ChangedEq(ts, m.block) {
+			return fmt.Errorf("%s: TState.ChangedKeys()=%s, but the commits so far published exactly %s", when, c04ShowMap(c04Changed(ts)), c04ShowMap(m.block))
+		}
+		if got := ts.PendingChanges(); got != len(m.block) {
+			return fmt.Errorf("%s: TState.PendingChanges()=%d, model %d", when, got, len(m.block))
+		}
+		probe := newView()
+		for i := 0; i < n; i++ {
+			got, gerr := c04RealGet(probe, c04Keys[i])
+			if gerr != nil {
+				return fmt.Errorf("%s: probe view GetValue(key %d) failed: %v", when, i, gerr)
+			}
+			if want := m.underlying(c04KeyStr[i]); got != want {
+				return fmt.Errorf("%s: a fresh view reads key %d as %s, but block-level state (parent + commits so far) is %s", when, i, c04ShowVal(got), c04ShowVal(want))
 			}
 		}
 		return nil
 	}
-	countEvents := func(k int) int {
-		cnt := 0
-		for _, e := range events {
-			if e.k == k {
-				cnt++
-			}
-		}
-		return cnt
-	}
-	commit := func(when fmt.Stringer) error {
-		if err := sweep(c04Str(when.String() + " (before commit)")); err != nil {
-			return err
-		}
-		if !c04ChangedEq(ts, m.block) {
-			return fmt.Errorf("%s: TState.ChangedKeys() moved without a commit: %s, model %s", when, c04ShowMap(c04Changed(ts)), c04ShowMap(m.block))
-		}
+	commit := func(sl *c04Slot, when fmt.Stringer) error {
 		before := map[string]mval{}
 		for k, v := range m.block {
 			before[k] = v
 		}
-		published := m.commit()
-		view.Commit()
+		published := sl.mv.commit()
+		sl.real.Commit()
 		if !c04ChangedEq(ts, m.block) {
 			after := c04Changed(ts)
 			return fmt.Errorf("%s: after Commit TState.ChangedKeys()=%s; before it was %s and the view differed from the underlying state exactly on %s, so it must be %s",
@@ -311,7 +371,13 @@ func c04Exec(c *c04Case, skip func(string)) (info c04Info, err error) {
 				info.publishDelete = true
 			}
 		}
-		if viewWrites > 0 {
+		if sl.commits >= 1 && sl.writes > 0 {
+			info.secondCommit = true
+		}
+		if len(before) == 0 && len(published) > 0 {
+			sl.firstOfBlk = true
+		}
+		if sl.writes > 0 {
 			commitsWithOps++
 			if len(published) == 0 {
 				info.publishNothingAfterWrites = true
@@ -320,30 +386,113 @@ func c04Exec(c *c04Case, skip func(string)) (info c04Info, err error) {
 		if commitsWithOps >= 2 {
 			info.multiView = true
 		}
+		sl.commits++
+		sl.writes = 0
 		return nil
 	}
-	resetView := func() {
-		view = newView()
-		cps = cps[:0]
-		events = events[:0]
-		viewWrites = 0
-		rolledBack = false
+	// look-ahead on the model only: would a Commit of sl (dropping it afterwards if
+	// drop) leave some live view with a stale restoring entry?
+	commitExcluded := func(sl *c04Slot, drop bool) bool {
+		d := sl.mv.diff()
+		saved := map[string]*mval{}
+		for k, e := range d {
+			if old, ok := m.block[k]; ok {
+				o := old
+				saved[k] = &o
+			} else {
+				saved[k] = nil
+			}
+			m.block[k] = e
+		}
+		bad := false
+		for _, o := range slots {
+			if o == nil || (drop && o == sl) {
+				continue
+			}
+			bad = bad || o.mv.staleRestoring()
+		}
+		for k, o := range saved {
+			if o == nil {
+				delete(m.block, k)
+			} else {
+				m.block[k] = *o
+			}
+		}
+		return bad
+	}
+	noteWrite := func(w int, k int) {
+		sl := slots[w]
+		sl.writes++
+		if sl.rolledBack {
+			info.writeAfterRollback = true
+		}
+		if sl.commits > 0 {
+			info.writeAfterCommit = true
+			if sl.firstOfBlk {
+				info.reuseAfterFirst = true
+			}
+		}
+		for oi, o := range slots {
+			if o == nil || oi == w {
+				continue
+			}
+			info.uncommittedWhileSibling = true
+			if _, ok := o.mv.ent[c04KeyStr[k]]; ok {
+				info.liveShareKey = true
+			}
+		}
+	}
+	// delete, create, delete of a key that exists underneath, within one view
+	dcd := func(sl *c04Slot, k int) bool {
+		var ev []c04Event
+		for _, e := range sl.events {
+			if e.k == k {
+				ev = append(ev, e)
+			}
+		}
+		l := len(ev)
+		return l >= 3 && !ev[l-1].create && ev[l-1].undPresent && ev[l-2].create && !ev[l-3].create && ev[l-3].undPresent
 	}
 
 	for oi, op := range c.Ops {
 		when := c04When{oi, op}
+		if op.W < 0 || op.W >= nv {
+			skip("view-slot-out-of-range")
+			info.skipped++
+			continue
+		}
+		sl := slots[op.W]
+		if sl == nil && op.Op != "renew" {
+			// the view of a slot is created at the drawn point where the slot is first addressed
+			sl = fresh()
+			slots[op.W] = sl
+		}
 		if (op.Op == "get" || op.Op == "ins" || op.Op == "rem") && (op.K < 0 || op.K >= n) {
 			skip("key-out-of-range")
 			info.skipped++
 			continue
 		}
+		if op.Op == "ins" || op.Op == "rem" {
+			held := false
+			for w2, o := range slots {
+				if o != nil && w2 != op.W && o.wrote[op.K] {
+					held = true
+				}
+			}
+			if held {
+				exclude(c04ExclOwner)
+				info.excluded++
+				continue
+			}
+			sl.wrote[op.K] = true
+		}
 		switch op.Op {
 		case "get":
-			got, gerr := c04RealGet(view, c04Keys[op.K])
+			got, gerr := c04RealGet(sl.real, c04Keys[op.K])
 			if gerr != nil {
 				return info, fmt.Errorf("%s: GetValue failed: %v", when, gerr)
 			}
-			if want := m.get(c04KeyStr[op.K]); got != want {
+			if want := sl.mv.get(c04KeyStr[op.K]); got != want {
 				return info, fmt.Errorf("%s: GetValue=%s, model says %s", when, c04ShowVal(got), c04ShowVal(want))
 			}
 		case "ins":
@@ -353,77 +502,78 @@ func c04Exec(c *c04Case, skip func(string)) (info c04Info, err error) {
 				continue
 			}
 			ks := c04KeyStr[op.K]
-			prev := m.get(ks)
-			nv := mval{Ok: true, V: c04Vals[op.V]}
-			if ierr := view.Insert(c04Ctx, c04Keys[op.K], []byte(nv.V)); ierr != nil {
+			prev := sl.mv.get(ks)
+			nval := mval{Ok: true, V: c04Vals[op.V]}
+			if ierr := sl.real.Insert(c04Ctx, c04Keys[op.K], []byte(nval.V)); ierr != nil {
 				return info, fmt.Errorf("%s: Insert failed: %v", when, ierr)
 			}
-			m.insert(ks, nv.V)
-			if nv.V == "" {
+			sl.mv.insert(ks, nval.V)
+			if nval.V == "" {
 				info.emptyValue = true
 			}
-			if prev == nv {
+			if prev == nval {
 				info.noopWrite = true
 			} else {
-				viewWrites++
-				if rolledBack {
-					info.writeAfterRollback = true
-				}
+				noteWrite(op.W, op.K)
+				und := m.underlying(ks)
 				if !prev.Ok {
-					events = append(events, c04Event{k: op.K, create: true})
+					sl.events = append(sl.events, c04Event{k: op.K, create: true, undPresent: und.Ok})
 				}
-				if nv == m.underlying(ks) {
+				if nval == und {
 					info.returnToUnderlying = true
 				}
 			}
 		case "rem":
 			ks := c04KeyStr[op.K]
-			prev := m.get(ks)
-			if rerr := view.Remove(c04Ctx, c04Keys[op.K]); rerr != nil {
+			prev := sl.mv.get(ks)
+			if rerr := sl.real.Remove(c04Ctx, c04Keys[op.K]); rerr != nil {
 				return info, fmt.Errorf("%s: Remove failed: %v", when, rerr)
 			}
-			m.remove(ks)
+			sl.mv.remove(ks)
 			if !prev.Ok {
 				info.noopWrite = true
 			} else {
-				viewWrites++
-				if rolledBack {
-					info.writeAfterRollback = true
-				}
-				events = append(events, c04Event{k: op.K, create: false})
+				noteWrite(op.W, op.K)
 				und := m.underlying(ks)
+				sl.events = append(sl.events, c04Event{k: op.K, create: false, undPresent: und.Ok})
 				if !und.Ok {
 					info.returnToUnderlying = true
-				} else if countEvents(op.K) >= 3 {
-					// underlying present => this key's effective transitions in this
-					// view alternate delete, create, delete, ...
+				} else if dcd(sl, op.K) {
 					info.dcdUnderlying = true
 				}
 			}
 		case "cp":
-			cps = append(cps, c04Checkpoint{real: view.OpIndex(), model: m.checkpoint(), ev: len(events)})
+			sl.cps = append(sl.cps, c04Checkpoint{real: sl.real.OpIndex(), model: sl.mv.checkpoint(), ev: len(sl.events), commits: sl.commits})
 		case "rb":
-			if len(cps) == 0 {
+			if len(sl.cps) == 0 {
 				skip("rollback-without-checkpoint")
 				info.skipped++
 				continue
 			}
 			idx := op.I
 			if idx < 0 {
-				idx = len(cps) + idx
+				idx = len(sl.cps) + idx
 				if idx < 0 {
 					idx = 0
 				}
 			} else {
-				idx %= len(cps)
+				idx %= len(sl.cps)
 			}
-			cp := cps[idx]
-			if cp.real > view.OpIndex() {
-				return info, fmt.Errorf("%s: harness error: checkpoint %d beyond OpIndex %d", when, cp.real, view.OpIndex())
+			cp := sl.cps[idx]
+			if cp.real > sl.real.OpIndex() {
+				return info, fmt.Errorf("%s: harness error: checkpoint %d beyond OpIndex %d", when, cp.real, sl.real.OpIndex())
+			}
+			if la := sl.mv.clone(); true {
+				la.rollback(cp.model)
+				if la.staleRestoring() {
+					exclude(c04ExclBelowCommit)
+					info.excluded++
+					continue
+				}
 			}
 			// label: does the undone segment contain a create and a delete of one key?
 			var sawC, sawD [len4]bool
-			for _, e := range events[cp.ev:] {
+			for _, e := range sl.events[cp.ev:] {
 				if e.create {
 					sawC[e.k] = true
 				} else {
@@ -435,38 +585,79 @@ func c04Exec(c *c04Case, skip func(string)) (info c04Info, err error) {
 					info.rbAcrossCD = true
 				}
 			}
-			view.Rollback(c04Ctx, cp.real)
-			m.rollback(cp.model)
-			events = events[:cp.ev]
-			cps = cps[:idx+1]
-			rolledBack = true
-			if got := view.OpIndex(); got != cp.real {
+			if cp.commits < sl.commits && cp.model < sl.mv.checkpoint() {
+				info.rbPastCommit = true
+				if sl.firstOfBlk {
+					info.reuseAfterFirst = true
+				}
+			}
+			sl.real.Rollback(c04Ctx, cp.real)
+			sl.mv.rollback(cp.model)
+			sl.events = sl.events[:cp.ev]
+			sl.cps = sl.cps[:idx+1]
+			sl.rolledBack = true
+			if got := sl.real.OpIndex(); got != cp.real {
 				return info, fmt.Errorf("%s: OpIndex()=%d after Rollback(%d)", when, got, cp.real)
 			}
 		case "commit":
-			if cerr := commit(when); cerr != nil {
+			if commitExcluded(sl, false) {
+				exclude(c04ExclBelowCommit)
+				info.excluded++
+				continue
+			}
+			if cerr := commit(sl, when); cerr != nil {
 				return info, cerr
 			}
-			resetView()
-		case "abandon":
-			info.abandon = true
-			m.abandon()
-			resetView()
+		case "cnew":
+			if commitExcluded(sl, true) {
+				exclude(c04ExclBelowCommit)
+				info.excluded++
+				continue
+			}
+			if cerr := commit(sl, when); cerr != nil {
+				return info, cerr
+			}
+			slots[op.W] = fresh()
+		case "renew":
+			if sl != nil {
+				info.abandon = true
+			}
+			slots[op.W] = fresh()
 		default:
 			return info, fmt.Errorf("malformed case: unknown op %q", op.Op)
 		}
 		info.ops++
-		if serr := sweep(when); serr != nil {
-			return info, serr
+		live := 0
+		for _, o := range slots {
+			if o != nil {
+				live++
+			}
+		}
+		if live >= 2 {
+			info.severalLive = true
+		}
+		if oerr := observe(when); oerr != nil {
+			return info, oerr
 		}
 	}
-	// every history ends with a commit so that the publish rule is always exercised
-	if cerr := commit(c04Str("final commit")); cerr != nil {
-		return info, cerr
-	}
-	resetView()
-	if serr := sweep(c04Str("fresh view after final commit")); serr != nil {
-		return info, serr
+	// every history ends with a commit of every live view (in slot order) so that
+	// the publish rule is always exercised
+	for si, sl := range slots {
+		if sl == nil {
+			continue
+		}
+		when := c04Str(fmt.Sprintf("final commit of view %d", si))
+		if commitExcluded(sl, false) {
+			exclude(c04ExclBelowCommit)
+			info.excluded++
+			continue
+		}
+		if cerr := commit(sl, when); cerr != nil {
+			return info, cerr
+		}
+		if oerr := observe(when); oerr != nil {
+			return info, oerr
+		}
 	}
 	return info, nil
 }
@@ -488,58 +679,76 @@ func (s c04Str) String() string { return string(s) }
 
 func c04Canon(c *c04Case) string {
 	var sb strings.Builder
-	fmt.Fprintf(&sb, "%d|%v|%v|", c.NKeys, c.Base, c.Block)
+	fmt.Fprintf(&sb, "%d|%d|%v|%v|", c.NKeys, c.NViews, c.Base, c.Block)
 	for _, o := range c.Ops {
-		fmt.Fprintf(&sb, "%s.%d.%d.%d;", o.Op, o.K, o.V, o.I)
+		fmt.Fprintf(&sb, "%s.%d.%d.%d.%d;", o.Op, o.W, o.K, o.V, o.I)
 	}
 	return sb.String()
 }
 
 func c04Render(c *c04Case) string {
 	var sb strings.Builder
-	fmt.Fprintf(&sb, "base=%v block=%v:", c.Base, c.Block)
+	fmt.Fprintf(&sb, "base=%v block=%v views=%d:", c.Base, c.Block, c.NViews)
 	for _, o := range c.Ops {
+		w := ""
+		if c.NViews > 1 {
+			w = fmt.Sprintf("v%d.", o.W)
+		}
 		switch o.Op {
 		case "get", "rem":
-			fmt.Fprintf(&sb, " %s(k%d)", o.Op, o.K)
+			fmt.Fprintf(&sb, " %s%s(k%d)", w, o.Op, o.K)
 		case "ins":
-			fmt.Fprintf(&sb, " ins(k%d,%q)", o.K, c04Vals[o.V%len(c04Vals)])
+			fmt.Fprintf(&sb, " %sins(k%d,%q)", w, o.K, c04Vals[o.V%len(c04Vals)])
 		case "rb":
-			fmt.Fprintf(&sb, " rb(%d)", o.I)
+			fmt.Fprintf(&sb, " %srb(%d)", w, o.I)
 		default:
-			sb.WriteString(" " + o.Op)
+			sb.WriteString(" " + w + o.Op)
 		}
 	}
 	return sb.String()
 }
 
 func c04Run(c c04Case, st *vstat.Stats) error {
-	info, err := c04Exec(&c, st.Skip)
+	info, err := c04Exec(&c, st.Skip, st.Exclude)
 	nt := info.nontrivial()
 	st.Case(nt, c04Canon(&c), info.labels()...)
 	st.Sample(nt, c04Render(&c))
 	return err
 }
 
-const c04Rule = "parent state x block-level pending changes (values, tombstones, tombstone over an absent parent key, value equal to the parent value) x op list (<=40 ops: get/insert/remove/checkpoint/rollback(i)/commit+new view/abandon+new view, always ended by a commit) over 2..4 keys and 4 values (incl. the empty value) on one TState, compared op by op with a map+undo-stack model; non-trivial = the history deletes, re-creates and deletes again a key that exists in the underlying state, or rolls back across a create and a delete of one key; distinct by the whole case"
+const c04Rule = "parent state x block-level pending changes (values, tombstones, tombstone over an absent parent key, value equal to the parent value) x op list (<=40 ops over 1..3 view slots on one TState, interleaved sequentially: get/insert/remove/checkpoint/rollback(i)/commit (view stays in use: more ops, rollback to checkpoints taken before the commit, further commits)/commit+fresh view/drop+fresh view; every live view is committed at the end; excluded by construction: a write to a key another live view has written, a rollback below the view's own commit onto a write that equalled the underlying value) over 2..4 keys and 4 values (incl. the empty value), compared op by op with a map+undo-stack model: after every op every live view, a fresh probe view and TState.ChangedKeys/PendingChanges are read back; non-trivial = the history deletes, re-creates and deletes again a key that exists in the underlying state, or rolls back across a create and a delete of one key, or writes on / rolls back a view past one of its own commits; distinct by the whole case"
 
 func c04Gen(rt *rapid.T) c04Case {
 	n := rapid.IntRange(2, 4).Draw(rt, "nkeys")
-	c := c04Case{NKeys: n}
+	nv := rapid.SampledFrom([]int{1, 1, 1, 2, 2, 3}).Draw(rt, "nviews")
+	c := c04Case{NKeys: n, NViews: nv}
 	for i := 0; i < n; i++ {
 		c.Base = append(c.Base, rapid.SampledFrom([]int{0, 1, 1, 2, 3, 4}).Draw(rt, "base"))
 		c.Block = append(c.Block, rapid.SampledFrom([]int{0, 0, 0, 1, 1, 2, 3, 4, 5}).Draw(rt, "block"))
 	}
-	kinds := []string{"ins", "ins", "ins", "ins", "ins", "rem", "rem", "rem", "rem", "rem", "get", "cp", "cp", "cp", "rb", "rb", "rb", "commit", "commit", "abandon"}
+	if rapid.IntRange(0, 2).Draw(rt, "emptyblock") == 0 {
+		// the first commit of a block goes into an empty change set
+		for i := range c.Block {
+			c.Block[i] = 0
+		}
+	}
+	kinds := []string{"ins", "ins", "ins", "ins", "ins", "rem", "rem", "rem", "rem", "rem", "get", "cp", "cp", "cp", "rb", "rb", "rb", "commit", "commit", "cnew", "cnew", "renew"}
 	keyBias := []int{0, 0, 0, 0, 1, 1, 2, 3}
+	slotBias := []int{0, 0, 0, 1, 1, 2}
 	// a slice of custom ops (not a drawn count + loop) so that rapid shrinks by removing ops
 	opGen := rapid.Custom(func(rt *rapid.T) c04Op {
 		op := c04Op{Op: rapid.SampledFrom(kinds).Draw(rt, "op")}
+		if nv > 1 {
+			op.W = rapid.SampledFrom(slotBias).Draw(rt, "w") % nv
+		}
+		// each slot prefers another key, so that the one-writer-per-key rule excludes few writes
 		switch op.Op {
-		case "get", "rem":
+		case "get":
 			op.K = rapid.SampledFrom(keyBias).Draw(rt, "k") % n
+		case "rem":
+			op.K = (rapid.SampledFrom(keyBias).Draw(rt, "k") + op.W) % n
 		case "ins":
-			op.K = rapid.SampledFrom(keyBias).Draw(rt, "k") % n
+			op.K = (rapid.SampledFrom(keyBias).Draw(rt, "k") + op.W) % n
 			op.V = rapid.IntRange(0, len(c04Vals)-1).Draw(rt, "v")
 		case "rb":
 			op.I = rapid.IntRange(-2, 3).Draw(rt, "i")
@@ -554,7 +763,8 @@ func c04Gen(rt *rapid.T) c04Case {
 
 func TestC04(t *testing.T) {
 	st := vstat.New(t, "C04", c04Rule)
-	st.Assumption("views on one TState are used one after the other (create, operate, commit or drop, then the next), as the executor guarantees for transactions with conflicting keys; full permissions (scope is C05)")
+	st.Assumption("up to three views on one TState are driven from one goroutine, interleaved at drawn points; full permissions (scope is C05)")
+	st.Assumption("a key is written by at most one live view at a time; a view is not rolled back below its own Commit onto a write that equalled the underlying value when it was made (both excluded by construction and counted)")
 	st.Assumption("block-level pending changes are seeded through one-op views and verified against TState.ChangedKeys() before the history starts")
 	rapid.Check(t, func(rt *rapid.T) {
 		c := c04Gen(rt)
@@ -581,8 +791,9 @@ func TestC04Exhaustive(t *testing.T) {
 			depth = d
 		}
 	}
-	st := vstat.New(t, "C04", fmt.Sprintf("exhaustive: every op sequence of length <=%d over 2 keys x 2 values (insert, remove, checkpoint, rollback to oldest/newest checkpoint, commit+new view; final commit appended) x every parent state {absent,A,B}^2 x every block-level pending change {none,tombstone,A,B}^2", depth))
+	st := vstat.New(t, "C04", fmt.Sprintf("exhaustive: every op sequence of length <=%d over 2 keys x 2 values on one view slot (insert, remove, checkpoint, rollback to oldest/newest checkpoint, commit with the view kept in use, commit+fresh view; final commit appended; probe view + ChangedKeys/PendingChanges read back after every op) x every parent state {absent,A,B}^2 x every block-level pending change {none,tombstone,A,B}^2", depth))
 	st.Exhaustive = true
+	st.Assumption("a view is not rolled back below its own Commit onto a write that equalled the underlying value when it was made (excluded by construction and counted)")
 	defer debug.SetGCPercent(debug.SetGCPercent(400)) // allocation-bound; trade memory for time
 	shard, nshards := 0, 1
 	if s, err := strconv.Atoi(os.Getenv("VERIF_SHARD")); err == nil {
@@ -594,7 +805,7 @@ func TestC04Exhaustive(t *testing.T) {
 	alphabet := []c04Op{
 		{Op: "ins", K: 0, V: 0}, {Op: "ins", K: 0, V: 1}, {Op: "ins", K: 1, V: 0}, {Op: "ins", K: 1, V: 1},
 		{Op: "rem", K: 0}, {Op: "rem", K: 1},
-		{Op: "cp"}, {Op: "rb", I: 0}, {Op: "rb", I: -1}, {Op: "commit"},
+		{Op: "cp"}, {Op: "rb", I: 0}, {Op: "rb", I: -1}, {Op: "commit"}, {Op: "cnew"},
 	}
 	type cfg struct{ base, block [2]int }
 	var cfgs []cfg
@@ -612,8 +823,9 @@ func TestC04Exhaustive(t *testing.T) {
 		}
 	}
 
+	exclFn := func(string) {} // exclusions of the exhaustive run are counted per worker (info.excluded)
 	type agg struct {
-		evals, nt int64
+		evals, nt, excluded int64
 		labels    map[string]int64
 		fail      *c04Case
 		failErr   error
@@ -638,13 +850,14 @@ func TestC04Exhaustive(t *testing.T) {
 			if s {
 				continue
 			}
-			c := c04Case{NKeys: 2, Base: cf.base[:], Block: cf.block[:]}
+			c := c04Case{NKeys: 2, NViews: 1, Base: cf.base[:], Block: cf.block[:]}
 			seq := make([]c04Op, 0, depth)
 			var rec func(left, ncp int) bool
 			rec = func(left, ncp int) bool {
 				if left == 0 {
 					c.Ops = seq
-					info, err := c04Exec(&c, nop)
+					info, err := c04Exec(&c, nop, exclFn)
+					loc.excluded += int64(info.excluded)
 					loc.evals++
 					nt := info.nontrivial()
 					if nt {
@@ -692,8 +905,8 @@ func TestC04Exhaustive(t *testing.T) {
 						if ncp < 1 {
 							continue
 						}
-					case op.Op == "commit":
-						n2 = 0
+					case op.Op == "cnew":
+						n2 = 0 // a fresh view has no checkpoints; a plain commit keeps them
 					}
 					seq = append(seq, op)
 					ok := rec(left-1, n2)
@@ -721,6 +934,7 @@ func TestC04Exhaustive(t *testing.T) {
 		mu.Lock()
 		total.evals += loc.evals
 		total.nt += loc.nt
+		total.excluded += loc.excluded
 		for l, n := range loc.labels {
 			total.labels[l] += n
 		}
@@ -747,6 +961,9 @@ func TestC04Exhaustive(t *testing.T) {
 	// already counted by st.Case; their labels are added here)
 	st.Evals += total.evals
 	st.NonTrivial += total.nt
+	if total.excluded > 0 {
+		st.Excluded[c04ExclBelowCommit] += total.excluded // one view slot: the ownership rule cannot fire
+	}
 	for l, n := range total.labels {
 		st.LabelN(l, n)
 	}
@@ -755,7 +972,7 @@ func TestC04Exhaustive(t *testing.T) {
 	if total.fail != nil {
 		c := *total.fail
 		vstat.Run(t, st, c, func() error {
-			_, err := c04Exec(&c, func(string) {})
+			_, err := c04Exec(&c, func(string) {}, exclFn)
 			if err == nil {
 				err = fmt.Errorf("not reproducible on re-execution: %v", total.failErr)
 			}
